@@ -20,6 +20,30 @@ def _limit_edges(F, b, lhs_pred, field):
     return edges_where(F, bound), edges_where(F, zero)
 
 
+def codec_wait_bounded(ctx, rule='codec-wait-bounded'):
+    """the frame decoder decides to wait for more bytes (and lets the framed reader buffer them) only for an announced size that
+    passed the max_message_size test; shared with C02 (allocation bound on peer input)"""
+    r, db = ctx.r, ctx.db
+    bs = db.find_bodies(r'^<core::comms::tcp_codec::TcpCodec as tokio_util::codec::Decoder>::decode$')
+    if not bs:
+        r.lost(rule, 'TcpCodec::decode', 'TcpCodec::decode not found')
+    else:
+        b = bs[0]; F = ctx.facts(b)
+        def is_msgsize(s):
+            return 'message_size' in fmt_sym(b, s)
+        waits = edges_where(F, lambda lit: lit[0] == 'cmp' and ((lit[1] == 'lt' and lit[2][0] == 'len' and is_msgsize(lit[3])) or
+                                                                (lit[1] == 'gt' and lit[3][0] == 'len' and is_msgsize(lit[2]))))
+        if not waits:
+            r.lost(rule, 'TcpCodec::decode:wait', 'no `buf.len() < message_size` wait edge found in TcpCodec::decode')
+        bound, zero = _limit_edges(F, b, is_msgsize, 'max_message_size')
+        for src, dst, lit in waits:
+            key = 'TcpCodec::decode:wait'
+            if bound and unreachable_without(b, src, bound + zero):
+                r.ok(rule, key, 'the decision to wait for %s bytes is dominated by `%s`' % (fmt_sym(b, lit[3] if lit[1] == 'lt' else lit[2]), fmt_lit(b, bound[0][2])), loc=b.loc)
+            else:
+                r.fail(rule, key, 'the codec waits for (and lets the framed reader buffer) any announced message size: no comparison with max_message_size dominates the wait', loc=b.loc)
+
+
 def run(ctx):
     r, db = ctx.r, ctx.db
     r.explanation = ('(a) server: every push onto TcpTransport.pending_chunks is dominated by the accepting edge of a comparison of '
@@ -86,23 +110,5 @@ def run(ctx):
             else:
                 r.fail(rule, key, 'a chunk is pushed onto MessageState.chunks and control can return without a bound test on max_pending_incoming or removal of the state', loc=c.loc)
     # ---------------- (c)
-    rule = 'codec-wait-bounded'
-    bs = db.find_bodies(r'^<core::comms::tcp_codec::TcpCodec as tokio_util::codec::Decoder>::decode$')
-    if not bs:
-        r.lost(rule, 'TcpCodec::decode', 'TcpCodec::decode not found')
-    else:
-        b = bs[0]; F = ctx.facts(b)
-        def is_msgsize(s):
-            return 'message_size' in fmt_sym(b, s)
-        waits = edges_where(F, lambda lit: lit[0] == 'cmp' and ((lit[1] == 'lt' and lit[2][0] == 'len' and is_msgsize(lit[3])) or
-                                                                (lit[1] == 'gt' and lit[3][0] == 'len' and is_msgsize(lit[2]))))
-        if not waits:
-            r.lost(rule, 'TcpCodec::decode:wait', 'no `buf.len() < message_size` wait edge found in TcpCodec::decode')
-        bound, zero = _limit_edges(F, b, is_msgsize, 'max_message_size')
-        for src, dst, lit in waits:
-            key = 'TcpCodec::decode:wait'
-            if bound and unreachable_without(b, src, bound + zero):
-                r.ok(rule, key, 'the decision to wait for %s bytes is dominated by `%s`' % (fmt_sym(b, lit[3] if lit[1] == 'lt' else lit[2]), fmt_lit(b, bound[0][2])), loc=b.loc)
-            else:
-                r.fail(rule, key, 'the codec waits for (and lets the framed reader buffer) any announced message size: no comparison with max_message_size dominates the wait', loc=b.loc)
+    codec_wait_bounded(ctx)
     r.floor('C10', 'bounded_sites', len([o for o in r.obls]), 4)
